@@ -8,42 +8,25 @@ case analysis).  Tie to the code: `Drv/C24` runs `respond` and the harness sends
 request to a live in-process server and compares status and body shape.
 
 **Claimed as partial.**  "The server never dies / every request is answered" is established
-by the live runs only (hyper/axum/tokio are outside the model).
+by the live runs only (hyper/axum/tokio are outside the model).  Over the model the shape
+statement is now proved at full strength: `respond_wellformed` has no hypothesis.
 
-State of the defects found by this check:
+All five defects found by this check have been repaired in /repo; `respond` models the
+repaired service, `respondLegacy` the original one, and the `legacy_witness_*` theorems keep
+each original defect as kernel-checked documentation:
 
-* *repaired in /repo (378f311)*: unknown path → `404` and registered path with another method
-  → `405` used to carry an **empty** body.  `respond` models the repaired service (error body
-  for both), `respond_wellformed_partial` no longer excludes them and
-  `respond_wellformed_routed` is the full statement for every route except `/delete`;
-  `legacy_witness_unknown_path` / `legacy_witness_wrong_method` keep the original defect as
-  kernel-checked documentation over `respondLegacy`.
-* *still open*: a body that exceeds the limit *while streaming* (chunked, no `Content-Length`)
-  is answered `400` (`invalid_request` / `read_body`) instead of `413`
-  (`witness_streamed_oversize_json`, `witness_streamed_oversize_ndjson`; `oversize_413_partial`
-  covers the declared case only).
-* *still open*: `/delete` is the only write handler that does not use `spawn_blocking`; a panic
-  of the library there unwinds the connection task and the connection ends without a response
-  (`witness_delete_panic`; the only case `excluded` still excludes).  Reproduced on the real
-  server with a storage panic injected through the `searchlite_verif` `FsStorage` hook: `/add`,
-  `/bulk`, `/commit`, `/search`, `/refresh`, `/compact` answer `500 *_join`, `/delete` answers
-  nothing.
-
-Full statement (false of the code, see the witnesses):
-`theorem respond_wellformed (r) (f) : wellFormed (respond r f) = true` and
-`theorem oversize_413 : (declared ∨ streamed oversize) → (respond r f).status = 413`.
+* 378f311 — unknown path → `404`, registered path with another method → `405` used to carry an
+  **empty** body (`legacy_witness_unknown_path`, `legacy_witness_wrong_method`);
+* 771419c — a body that exceeds the limit *while streaming* (chunked, no `Content-Length`) used
+  to be answered `400` (`invalid_request` on the JSON endpoints, `read_body` on `/add`) instead
+  of `413` (`legacy_witness_streamed_oversize_json`, `legacy_witness_streamed_oversize_ndjson`;
+  now `oversize_413` covers the declared and the streamed case);
+* c4eccfe — `/delete` was the only write handler outside `spawn_blocking`: a panic of the
+  library (reproduced with a storage panic injected through the `searchlite_verif` `FsStorage`
+  hook) ended the connection without a response (`legacy_witness_delete_panic`; now
+  `panic_500` covers every endpoint).
 -/
 namespace SL.Http
-
-/-- the requests on which the code is outside the property (the hypothesis of
-`respond_wellformed_partial` is the negation of this): only a panic of the library under
-`/delete`, once payload and ids are fine and the index is there -/
-def excluded (r : Route) (f : Facts) : Bool :=
-  if f.declaredOversize then false
-  else match r with
-    | .hit .delete =>
-      f.payload == .ok && !f.inputBad && f.idx == .ready && f.core == .panic
-    | _ => false
 
 /-! ### every response is one of finitely many constants -/
 
@@ -56,7 +39,8 @@ def errLeaves : List Resp :=
    errResp 400 .deleteFailed, errResp 500 .commitJoin, errResp 500 .commitFailed,
    errResp 500 .refreshJoin, errResp 500 .refreshFailed, errResp 500 .compactJoin,
    errResp 500 .compactFailed, errResp 500 .searchJoin, errResp 400 .searchFailed,
-   errResp 400 .invalidLimit, errResp 404 .notFound, errResp 405 .methodNotAllowed]
+   errResp 400 .invalidLimit, errResp 404 .notFound, errResp 405 .methodNotAllowed,
+   errResp 413 .bodyTooLarge, errResp 500 .deleteJoin]
 
 section ladder
 set_option linter.unusedSectionVars false
@@ -66,6 +50,7 @@ include hok herr
 theorem jsonExtract_leaf (k : Resp) (hk : P k) : P (jsonExtract f k) := by
   unfold jsonExtract
   split
+  · exact herr _ (by decide)
   · exact herr _ (by decide)
   · exact herr _ (by decide)
   · exact hk
@@ -94,14 +79,14 @@ theorem addWork_leaf : P (addWork f) := by
   · exact herr _ (by decide)
   · exact herr _ (by decide)
   · exact herr _ (by decide)
+  · exact herr _ (by decide)
   · exact hok
   · exact ingest_leaf P f hok herr
 
-theorem deleteWork_leaf (hpanic : f.core = .panic → P ⟨0, .noResponse, .none⟩) :
-    P (deleteWork f) := by
+theorem deleteWork_leaf : P (deleteWork f) := by
   unfold deleteWork
   split
-  · rename_i h; exact hpanic h
+  · exact herr _ (by decide)
   · split
     · exact herr _ (by decide)
     · exact herr _ (by decide)
@@ -109,13 +94,9 @@ theorem deleteWork_leaf (hpanic : f.core = .panic → P ⟨0, .noResponse, .none
     · exact herr _ (by decide)
     · exact hok
 
-/-- induction principle over the ladder: a predicate that holds of `okResp`, of every error
-constant and (where `/delete`'s library work panics) of "no response" holds of every
-handler result -/
-theorem handler_leaf (e : Endpoint)
-    (hpanic : e = .delete → f.payload = .ok → f.inputBad = false → f.idx = .ready →
-      f.core = .panic → P ⟨0, .noResponse, .none⟩) :
-    P (handler e f) := by
+/-- induction principle over the ladder: a predicate that holds of `okResp` and of every error
+constant holds of every handler result -/
+theorem handler_leaf (e : Endpoint) : P (handler e f) := by
   cases e with
   | healthz => exact hok
   | init =>
@@ -134,21 +115,10 @@ theorem handler_leaf (e : Endpoint)
     · exact herr _ (by decide)
     · exact requireIndex_leaf P f hok herr _ (ingest_leaf P f hok herr)
   | delete =>
-    show P (jsonExtract f _)
-    unfold jsonExtract
+    apply jsonExtract_leaf P f hok herr
     split
     · exact herr _ (by decide)
-    · exact herr _ (by decide)
-    · rename_i hp
-      split
-      · exact herr _ (by decide)
-      · rename_i hb
-        unfold requireIndex
-        split
-        · rename_i hi
-          exact deleteWork_leaf P f hok herr (fun hc => hpanic rfl hp (by simpa using hb) hi hc)
-        · exact herr _ (by decide)
-        · exact herr _ (by decide)
+    · exact requireIndex_leaf P f hok herr _ (deleteWork_leaf P f hok herr)
   | commit =>
     apply requireIndex_leaf P f hok herr
     unfold blocking
@@ -187,13 +157,11 @@ end ladder
 
 theorem errLeaves_wellFormed : ∀ x ∈ errLeaves, wellFormed x = true := by decide
 
-/-- **C24, shape (partial: everything but a library panic under `/delete`).**  Every request
-— routed to a handler, stopped by the body-limit layer, sent to an unknown path or with a
-wrong method — gets either a 2xx response with the endpoint's JSON or a non-2xx response
-whose body is `{"error":{"type","reason"}}`, for every endpoint and every combination of
-facts. -/
-theorem respond_wellformed_partial (r : Route) (f : Facts) (hx : excluded r f = false) :
-    wellFormed (respond r f) = true := by
+/-- **C24, shape — full statement.**  Every request — routed to a handler, stopped by the
+body-limit layer, sent to an unknown path or with a wrong method — gets either a 2xx response
+with the endpoint's JSON or a non-2xx response whose body is `{"error":{"type","reason"}}`:
+for every route, every endpoint and every combination of facts, whatever the core does. -/
+theorem respond_wellformed (r : Route) (f : Facts) : wellFormed (respond r f) = true := by
   unfold respond
   cases hd : f.declaredOversize with
   | true => simp [wellFormed, errResp]
@@ -202,24 +170,16 @@ theorem respond_wellformed_partial (r : Route) (f : Facts) (hx : excluded r f = 
     cases r with
     | unknownPath => simp [wellFormed, errResp]
     | wrongMethod e => simp [wellFormed, errResp]
-    | hit e =>
-      apply handler_leaf (fun x => wellFormed x = true) f (by decide) errLeaves_wellFormed e
-      intro he hp hb hi hc
-      subst he
-      simp [excluded, hd, hp, hb, hi, hc] at hx
+    | hit e => exact handler_leaf (fun x => wellFormed x = true) f (by decide) errLeaves_wellFormed e
 
-/-- **C24, shape, full statement for every route other than `/delete`** (no hypothesis on the
-facts): unknown paths, wrong methods and all other endpoints, whatever the core does -/
-theorem respond_wellformed_routed (r : Route) (f : Facts) (hr : r ≠ .hit .delete) :
-    wellFormed (respond r f) = true := by
-  apply respond_wellformed_partial
-  unfold excluded
-  split
-  · rfl
-  · cases r with
-    | unknownPath => rfl
-    | wrongMethod e => rfl
-    | hit e => cases e <;> first | rfl | exact absurd rfl hr
+/-- in particular a response is always produced (the model's "no response" shape does not
+occur any more) -/
+theorem respond_answers (r : Route) (f : Facts) : (respond r f).shape ≠ .noResponse := by
+  have h := respond_wellformed r f
+  intro hs
+  unfold wellFormed at h
+  rw [hs] at h
+  split at h <;> simp at h
 
 /-- unknown paths and wrong methods: 404 / 405 with the error body, whatever the facts -/
 theorem unrouted_error_body (f : Facts) (hov : f.declaredOversize = false) (e : Endpoint) :
@@ -227,15 +187,52 @@ theorem unrouted_error_body (f : Facts) (hov : f.declaredOversize = false) (e : 
     respond (.wrongMethod e) f = errResp 405 .methodNotAllowed := by
   simp [respond, hov]
 
-/-- the repair changed nothing else: on registered routes and under the body-limit layer the
-repaired and the original service coincide -/
-theorem respond_eq_legacy (r : Route) (f : Facts)
-    (h : f.declaredOversize = true ∨ ∃ e, r = .hit e) :
-    respond r f = respondLegacy r f := by
+/-- the repairs changed nothing else: the repaired and the original service coincide unless
+the route is unknown / has the wrong method, the body outgrew the limit while streaming, or
+the library panics under `/delete` -/
+theorem respond_eq_legacy (e : Endpoint) (f : Facts)
+    (hp : f.payload ≠ .rejected .lengthLimit) (ha : f.addBody ≠ .limitErr)
+    (hd : e = .delete → f.core ≠ .panic) :
+    respond (.hit e) f = respondLegacy (.hit e) f := by
   unfold respond respondLegacy
-  rcases h with h | ⟨e, rfl⟩
-  · simp [h]
+  split
   · rfl
+  · obtain ⟨ov, pl, ab, ib, me, ix, we, co⟩ := f
+    simp only at hp ha hd
+    cases e
+    case healthz => rfl
+    case commit => rfl
+    case refresh => rfl
+    case compact => rfl
+    case inspect => rfl
+    case stats => rfl
+    case init =>
+      cases pl with
+      | rejected r => cases r <;> first | rfl | exact absurd rfl hp
+      | _ => rfl
+    case bulk =>
+      cases pl with
+      | rejected r => cases r <;> first | rfl | exact absurd rfl hp
+      | _ => rfl
+    case search =>
+      cases pl with
+      | rejected r => cases r <;> first | rfl | exact absurd rfl hp
+      | _ => rfl
+    case add => cases ab <;> first | rfl | exact absurd rfl ha
+    case delete =>
+      cases pl with
+      | rejected r => cases r <;> first | rfl | exact absurd rfl hp
+      | stall => rfl
+      | ok =>
+        cases ib
+        · cases ix
+          · cases co
+            · rfl
+            · rfl
+            · exact absurd rfl (hd rfl)
+          · rfl
+          · rfl
+        · rfl
 
 /-- the facts under which endpoint `e` answers 2xx -/
 def happy (e : Endpoint) (f : Facts) : Bool :=
@@ -260,16 +257,16 @@ theorem success_iff_no_failure (e : Endpoint) (f : Facts) :
     cases e
     case healthz => simp [respond, handler, happy, okResp]
     case init =>
-      cases pl <;> cases me <;> cases co <;>
+      rcases pl with _ | (_ | _ | _ | _ | _) | _ <;> cases me <;> cases co <;>
         simp [respond, handler, happy, jsonExtract, blocking, okResp, errResp, timeoutResp]
     case add =>
       cases ix <;> cases ab <;> cases we <;> cases co <;>
         simp [respond, handler, happy, requireIndex, addWork, ingest, okResp, errResp, timeoutResp]
     case bulk =>
-      cases pl <;> cases ib <;> cases ix <;> cases we <;> cases co <;>
+      rcases pl with _ | (_ | _ | _ | _ | _) | _ <;> cases ib <;> cases ix <;> cases we <;> cases co <;>
         simp [respond, handler, happy, jsonExtract, requireIndex, ingest, okResp, errResp, timeoutResp]
     case delete =>
-      cases pl <;> cases ib <;> cases ix <;> cases we <;> cases co <;>
+      rcases pl with _ | (_ | _ | _ | _ | _) | _ <;> cases ib <;> cases ix <;> cases we <;> cases co <;>
         simp [respond, handler, happy, jsonExtract, requireIndex, deleteWork, okResp, errResp, timeoutResp]
     case commit =>
       cases ix <;> cases co <;>
@@ -281,7 +278,7 @@ theorem success_iff_no_failure (e : Endpoint) (f : Facts) :
       cases ix <;> cases co <;>
         simp [respond, handler, happy, requireIndex, blocking, okResp, errResp]
     case search =>
-      cases pl <;> cases ib <;> cases ix <;> cases co <;>
+      rcases pl with _ | (_ | _ | _ | _ | _) | _ <;> cases ib <;> cases ix <;> cases co <;>
         simp [respond, handler, happy, jsonExtract, requireIndex, blocking, okResp, errResp, timeoutResp]
     case inspect => cases ix <;> simp [respond, handler, happy, requireIndex, okResp, errResp]
     case stats => cases ix <;> simp [respond, handler, happy, requireIndex, okResp, errResp]
@@ -321,11 +318,25 @@ theorem reinit_409 (f : Facts) (hov : f.declaredOversize = false) (hp : f.payloa
     respond (.hit .init) f = errResp 409 .indexExists := by
   simp [respond, handler, jsonExtract, hov, hp, hm]
 
-/-- **413 for oversized bodies (partial: declared by `Content-Length`)** — for every route,
-even unknown paths, since the body-limit layer sits in front of the router -/
-theorem oversize_413_partial (r : Route) (f : Facts) (hov : f.declaredOversize = true) :
+/-- **413 for oversized bodies — full statement**: declared by `Content-Length` (for every
+route, even unknown paths, since the body-limit layer sits in front of the router), or
+outgrowing the limit while streaming on an endpoint that reads the body (the JSON extractor's
+length-limit rejection; `/add`'s "length limit exceeded" read error once the index is there) -/
+theorem oversize_413 (r : Route) (f : Facts)
+    (h : f.declaredOversize = true ∨
+         (∃ e, r = .hit e ∧ (e = .init ∨ e = .bulk ∨ e = .delete ∨ e = .search) ∧
+            f.payload = .rejected .lengthLimit) ∨
+         (r = .hit .add ∧ f.idx = .ready ∧ f.addBody = .limitErr)) :
     respond r f = errResp 413 .bodyTooLarge := by
-  simp [respond, hov]
+  unfold respond
+  cases hov : f.declaredOversize with
+  | true => simp
+  | false =>
+    simp only [Bool.false_eq_true, if_false]
+    rcases h with h | ⟨e, rfl, he, hp⟩ | ⟨rfl, hi, ha⟩
+    · simp [hov] at h
+    · rcases he with he | he | he | he <;> subst he <;> simp [handler, jsonExtract, hp]
+    · simp [handler, requireIndex, addWork, hi, ha]
 
 /-- **4xx for invalid input**: a rejected payload, a failed handler validation, or a bad
 NDJSON line / unreadable body gives a 4xx status with the error body (unless the manifest on
@@ -341,7 +352,7 @@ theorem invalid_input_4xx (e : Endpoint) (f : Facts) (hov : f.declaredOversize =
   simp only [hov, Bool.false_eq_true, if_false]
   rcases hinv with ⟨he, hbad⟩ | ⟨he, hix, hbody⟩
   · rcases hbad with ⟨r, hr⟩ | ⟨hni, hp, hb⟩
-    · rcases he with he | he | he | he <;> subst he <;>
+    · rcases he with he | he | he | he <;> subst he <;> cases r <;>
         simp [handler, jsonExtract, hr, errResp]
     · rcases he with he | he | he | he <;> subst he
       · exact absurd rfl hni
@@ -355,16 +366,17 @@ theorem invalid_input_4xx (e : Endpoint) (f : Facts) (hov : f.declaredOversize =
     | ready =>
       rcases hbody with hb | hb <;> simp [handler, requireIndex, addWork, hi, hb, errResp]
 
-/-- `parse_json` flattens every extractor rejection to `400 invalid_request`: the status axum
-itself attaches to the rejection (415 unsupported media type, 422 unprocessable, 413 length
-limit) never reaches the client -/
-theorem parse_json_flattens (e : Endpoint) (f : Facts) (r : Rejection)
+/-- `parse_json`: the extractor's length-limit rejection keeps its 413 (`body_too_large`);
+every other rejection is flattened to `400 invalid_request` — axum's own 415 (unsupported
+media type) and 422 (unprocessable) never reach the client -/
+theorem parse_json_status (e : Endpoint) (f : Facts) (r : Rejection)
     (he : e = .init ∨ e = .bulk ∨ e = .delete ∨ e = .search)
     (hov : f.declaredOversize = false) (hp : f.payload = .rejected r) :
-    respond (.hit e) f = errResp 400 .invalidRequest := by
+    respond (.hit e) f =
+      (if r = .lengthLimit then errResp 413 .bodyTooLarge else errResp 400 .invalidRequest) := by
   unfold respond
   simp only [hov, Bool.false_eq_true, if_false]
-  rcases he with he | he | he | he <;> subst he <;> simp [handler, jsonExtract, hp]
+  rcases he with he | he | he | he <;> subst he <;> cases r <;> simp [handler, jsonExtract, hp]
 
 /-- a core error (not a panic) is reported with the error body and the endpoint's status:
 400 for search/init/add/bulk/delete, 500 for commit/refresh/compact -/
@@ -381,19 +393,20 @@ theorem core_error_status (e : Endpoint) (f : Facts) (hov : f.declaredOversize =
   cases e <;>
     simp_all [handler, jsonExtract, requireIndex, blocking, ingest, addWork, deleteWork, errResp]
 
-/-- **500 for a panic in a blocking task (partial: every endpoint but `/delete`)**: the
-join error is mapped to 500 with the error body -/
-theorem panic_500_partial (e : Endpoint) (f : Facts) (hov : f.declaredOversize = false)
+/-- **500 for a panic of the library — full statement**: on every endpoint that calls the
+library (all but `/healthz`, `/inspect`, `/stats`) the join error is mapped to 500 with the
+error body -/
+theorem panic_500 (e : Endpoint) (f : Facts) (hov : f.declaredOversize = false)
     (hp : f.payload = .ok) (hb : f.inputBad = false) (hi : f.idx = .ready)
     (hm : f.manifestExists = false) (ha : f.addBody = .docs) (hc : f.core = .panic)
-    (he : e ≠ .healthz ∧ e ≠ .inspect ∧ e ≠ .stats ∧ e ≠ .delete) :
+    (he : e ≠ .healthz ∧ e ≠ .inspect ∧ e ≠ .stats) :
     (respond (.hit e) f).status = 500 ∧ (respond (.hit e) f).shape = .errorJson ∧
     (respond (.hit e) f).kind ≠ .none := by
   unfold respond
   simp only [hov, Bool.false_eq_true, if_false]
-  obtain ⟨h1, h2, h3, h4⟩ := he
+  obtain ⟨h1, h2, h3⟩ := he
   cases e <;>
-    simp_all [handler, jsonExtract, requireIndex, blocking, ingest, addWork, errResp]
+    simp_all [handler, jsonExtract, requireIndex, blocking, ingest, addWork, deleteWork, errResp]
 
 /-- a stalled body is answered by the timeout layer with 504 and the error body -/
 theorem stall_504 (e : Endpoint) (f : Facts) (hov : f.declaredOversize = false)
@@ -412,9 +425,9 @@ theorem healthz_ok (f : Facts) (hov : f.declaredOversize = false) :
     respond (.hit .healthz) f = okResp := by
   simp [respond, handler, hov]
 
-/-- only these status codes are ever produced (`0` = no response, `/delete` panic only) -/
+/-- only these status codes are ever produced -/
 theorem status_range (r : Route) (f : Facts) :
-    (respond r f).status ∈ [0, 200, 400, 404, 405, 409, 413, 500, 504] := by
+    (respond r f).status ∈ [200, 400, 404, 405, 409, 413, 500, 504] := by
   unfold respond
   split
   · decide
@@ -422,10 +435,10 @@ theorem status_range (r : Route) (f : Facts) :
     | unknownPath => simp [errResp]
     | wrongMethod e => simp [errResp]
     | hit e =>
-      exact handler_leaf (fun x => x.status ∈ [0, 200, 400, 404, 405, 409, 413, 500, 504]) f
-        (by decide) (by decide) e (fun _ _ _ _ _ => by decide)
+      exact handler_leaf (fun x => x.status ∈ [200, 400, 404, 405, 409, 413, 500, 504]) f
+        (by decide) (by decide) e
 
-/-! ### negative witnesses (where the code is, or was before its repair, outside the property) -/
+/-! ### legacy witnesses (the service before its repairs was outside the property here) -/
 
 def plain : Facts :=
   { declaredOversize := false, payload := .ok, addBody := .docs, inputBad := false,
@@ -438,21 +451,25 @@ theorem legacy_witness_unknown_path : wellFormed (respondLegacy .unknownPath pla
 theorem legacy_witness_wrong_method :
     wellFormed (respondLegacy (.wrongMethod .search) plain) = false := by decide
 
-/-- a body that outgrows the limit while streaming is answered 400, not 413 -/
-theorem witness_streamed_oversize_json :
-    (respond (.hit .bulk) { plain with payload := .rejected .lengthLimit }).status = 400 := by decide
+/-- before 771419c — a JSON body that outgrows the limit while streaming: 400, not 413 -/
+theorem legacy_witness_streamed_oversize_json :
+    (respondLegacy (.hit .bulk) { plain with payload := .rejected .lengthLimit }).status = 400 ∧
+    (respond (.hit .bulk) { plain with payload := .rejected .lengthLimit }).status = 413 := by decide
 
-theorem witness_streamed_oversize_ndjson :
-    (respond (.hit .add) { plain with addBody := .readErr }).status = 400 := by decide
+/-- before 771419c — an NDJSON body that outgrows the limit while streaming: 400, not 413 -/
+theorem legacy_witness_streamed_oversize_ndjson :
+    (respondLegacy (.hit .add) { plain with addBody := .limitErr }).status = 400 ∧
+    (respond (.hit .add) { plain with addBody := .limitErr }).status = 413 := by decide
 
-/-- a panic under `/delete`: no response at all -/
-theorem witness_delete_panic :
-    (respond (.hit .delete) { plain with core := .panic }).shape = .noResponse := by decide
+/-- before c4eccfe — a panic under `/delete`: no response at all; now 500 with the error body -/
+theorem legacy_witness_delete_panic :
+    (respondLegacy (.hit .delete) { plain with core := .panic }).shape = .noResponse ∧
+    respond (.hit .delete) { plain with core := .panic } = errResp 500 .deleteJoin := by decide
 
 /-! ### non-vacuity -/
 
-example : excluded (.hit .search) { plain with core := .panic } = false ∧
-    respond (.hit .search) { plain with core := .panic } = errResp 500 .searchJoin := by decide
+example : respond (.hit .search) { plain with core := .panic } = errResp 500 .searchJoin := by decide
+example : respond (.hit .add) { plain with addBody := .readErr } = errResp 400 .readBody := by decide
 
 example : respond .unknownPath plain = errResp 404 .notFound ∧
     respond (.wrongMethod .healthz) plain = errResp 405 .methodNotAllowed := by decide
